@@ -474,6 +474,16 @@ def ref_split_atom(a):
     return core, al
 
 
+def indep_inverted(model, r):
+    """documented rule, written independently of penman.model: a role is inverted iff it ends in
+    -of and the role table does not define it as it stands"""
+    return r.endswith('-of') and not defined_by_spec(model, r)
+
+
+def indep_invert_role(model, r):
+    return r[:-3] if indep_inverted(model, r) else r + '-of'
+
+
 def ref_read(node, model, noop):
     """documented reading: (top, triples, {triple: (role_aln, target_aln)})"""
     nodevars = {n[0] for n in all_nodes(node) if n[0] is not None}
@@ -494,8 +504,8 @@ def ref_read(node, model, noop):
                 tv, ta = ref_split_atom(tgt)
                 is_ref = isinstance(tv, str) and tv in nodevars
             tr = (var, r, tv)
-            if is_ref and not noop and model.is_role_inverted(r):
-                tr = (tv, model.invert_role(r), var)
+            if is_ref and not noop and indep_inverted(model, r):
+                tr = (tv, indep_invert_role(model, r), var)
             own.append((tr, ra, ta, tgt if isinstance(tgt, tuple) else None))
         if not has_concept:
             triples.append((var, ':instance', None))
@@ -522,8 +532,8 @@ def ref_read(node, model, noop):
                 tv, ta = ref_split_atom(tgt)
                 is_ref = isinstance(tv, str) and tv in nodevars
             tr = (var, r, tv)
-            if is_ref and not noop and model.is_role_inverted(r):
-                tr = (tv, model.invert_role(r), var)
+            if is_ref and not noop and indep_inverted(model, r):
+                tr = (tv, indep_invert_role(model, r), var)
             out_t.append(tr)
             out_a.append((tr, ra, ta))
             if isinstance(tgt, tuple):
@@ -1575,8 +1585,8 @@ def writer(node, model, noop):
                 is_ref = isinstance(tv, str) and tv in nodevars
             tr = (var, r, tv)
             inv = False
-            if is_ref and not noop and model.is_role_inverted(r):
-                tr = (tv, model.invert_role(r), var)
+            if is_ref and not noop and indep_inverted(model, r):
+                tr = (tv, indep_invert_role(model, r), var)
                 inv = True
             own.append((tr, var, tgt[0] if isinstance(tgt, tuple) else None, inv, tgt))
         res = []
